@@ -72,13 +72,20 @@ SPECIAL_MESSAGES = [
     ("percent-mapping", "%(x)s and %(code)d"), ("percent-percent", "%%"), ("lone-percent", "%"),
     ("braces-empty", "{}"), ("braces-index", "{0} {1}"), ("braces-name", "{code} {message!r}"), ("braces-unbalanced", "{ }} {"),
     ("backslashes", "C:\\dir\\new \\n \\u00e9 \\"), ("dollar-template", "$code ${message}"),
+    # text no UTF-8 encoder accepts as it stands (unpaired surrogates) and other exotic code points
+    ("lone-high-surrogate", "bad \ud83d text"), ("lone-low-surrogate", "\udc00"), ("reversed-surrogates", "\udc00\ud83d"),
+    ("nul-ffff-astral", "nul\x00 \uffff \U0001F600\U0010FFFF \ufffe"),
 ]
 N_PLAIN_MESSAGES = len(MESSAGES)
 MESSAGES = MESSAGES + SPECIAL_MESSAGES
 DATAS = [("absent", "__absent__"), ("null", None), ("string", "s"),
          ("object", {"k": None, "é": [1]}), ("list", [1, None, {"k": "v"}])]
-SHAPES = ([(mi, di) for mi in range(N_PLAIN_MESSAGES) for di in range(len(DATAS))]
-          + [(mi, 0) for mi in range(N_PLAIN_MESSAGES, len(MESSAGES))])
+N_PLAIN_DATAS = len(DATAS)
+DATAS = DATAS + [("string-with-lone-surrogate", "x\ud83dy"), ("object-with-lone-surrogates", {"k": "\udc00", "n": ["\ud83d", None]}),
+                 ("nul-and-noncharacters", ["\x00", "\uffff", "\U0010FFFF"])]
+SHAPES = ([(mi, di) for mi in range(N_PLAIN_MESSAGES) for di in range(N_PLAIN_DATAS)]
+          + [(mi, 0) for mi in range(N_PLAIN_MESSAGES, len(MESSAGES))]
+          + [(2, di) for di in range(N_PLAIN_DATAS, len(DATAS))])
 
 
 def error_obj(code: int, shape) -> Dict[str, Any]:
@@ -223,7 +230,7 @@ def _run_sm(cfg) -> Dict[str, Any]:
     boundary = set(boundary_codes())
     for mode in ("parsed", "constructed"):
         for shape in SHAPES:
-            if mode == "constructed" and shape[0] >= N_PLAIN_MESSAGES and code not in boundary:
+            if mode == "constructed" and (shape[0] >= N_PLAIN_MESSAGES or shape[1] >= N_PLAIN_DATAS) and code not in boundary:
                 continue  # special texts through the second route: boundary codes only
             if not representable(shape, mode):
                 counters["sm_unrepresentable"] += 1
@@ -256,7 +263,8 @@ def _run_helper(cfg) -> Dict[str, Any]:
     named_bool = sname in BOOL_HELPERS
     other_bool = (ret is bool or ret == "bool") and not named_bool
     which = cfg.get("shapes", "all")
-    shapes = {"all": SHAPES, "plain": [sh for sh in SHAPES if sh[0] < N_PLAIN_MESSAGES], "few": [(1, 0), (2, 3)]}[which]
+    shapes = {"all": SHAPES, "plain": [sh for sh in SHAPES if sh[0] < N_PLAIN_MESSAGES and sh[1] < N_PLAIN_DATAS],
+              "few": [(1, 0), (2, 3)]}[which]
     for code in cfg["codes"]:
         for shape in shapes:
             if not representable(shape, "parsed"):
@@ -545,6 +553,12 @@ def run_one(ctl: explorer.Ctl, cfg: Dict[str, Any]) -> Dict[str, Any]:
     if pre or post:
         obs = dict(obs)
         obs["violations"] = pre + list(obs.get("violations") or []) + post
+    for v in obs.get("violations") or []:
+        # texts of the alphabet contain unpaired surrogates: keep every report printable
+        v["msg"] = str(v.get("msg", "")).encode("utf-8", "backslashreplace").decode("utf-8")
+        for k, x in list((v.get("sig") or {}).items()):
+            if isinstance(x, str):
+                v["sig"][k] = x.encode("utf-8", "backslashreplace").decode("utf-8")
     return obs
 
 
@@ -678,8 +692,65 @@ def _run_pair(cfg) -> Dict[str, Any]:
     return {"outcome": "pair:" + "+".join(got), "violations": viol[:10], "counters": {"pair_scenarios": 1, "pair_calls": 2}}
 
 
+# ---------------------------------------------------------------------------
+# boolean helpers against a peer whose answers differ from request to request
+# ---------------------------------------------------------------------------
+SEQ_SECOND = [("result", None), ("error", -32601), ("error", -32603), ("silence", None)]
+
+
+def _run_boolseq(cfg) -> Dict[str, Any]:
+    name = cfg["helper"]
+    func = hd.resolve(name)
+    sname = hd.short(name)
+    viol: List[dict] = []
+    counters = {"boolseq_calls": 0}
+    outs = set()
+    firsts = [("error", c) for c in cfg["codes"]] + ([("result", None)] if cfg.get("with_result_first") else [])
+    for first in firsts:
+        for second in SEQ_SECOND:
+            plan = [first, second]
+
+            def script(req, n, plan=plan):
+                kind, code = plan[n] if n < len(plan) else ("silence", None)
+                if kind == "silence":
+                    return []
+                if kind == "error":
+                    return [hd.incoming({"jsonrpc": "2.0", "id": req["id"], "error": {"code": code, "message": MSG}})]
+                return [hd.incoming({"jsonrpc": "2.0", "id": req["id"], "result": {}})]
+
+            o = hd.drive(func, hd.build_kwargs(func, hd.Profile()), script, timeout=2.0)
+            counters["boolseq_calls"] += 1
+            ctx = f"helper={sname}; the peer answers request #1 with {first}, a request #2 (if any) with {second}"
+            sig = {"via": sname, "scenario": "answers-differ-per-request", "first": first[0],
+                   "first-code": "retryable" if first[1] is not None and first[1] not in PERMANENT else
+                   ("permanent" if first[1] is not None else "-")}
+            if o["status"] != "ok":
+                viol.append({"sig": {"class": "did-not-finish", **sig, "status": o["status"]}, "msg": f"{o['status']}; {ctx}"})
+                outs.add(o["status"])
+                continue
+            want = first[0] == "result"
+            if o["outcome"] == "raised":
+                viol.append({"sig": {"class": "bool-helper-raised", **sig},
+                             "msg": f"raised {hd.exc_info(o['exc'])['cls']}: {str(o['exc'])[:100]!r}; {ctx}"})
+                outs.add("raised")
+            elif o["value"] is not want:
+                viol.append({"sig": {"class": "bool-helper-did-not-report-first-answer", **sig, "second": second[0]},
+                             "msg": f"returned {o['value']!r}, the answer to its request was {first} (expected {want}); {ctx}"})
+                outs.add("wrong")
+            else:
+                outs.add(str(want))
+            if o["requests"] != 1:
+                viol.append({"sig": {"class": "request-count", **sig, "requests": min(o["requests"], 3)},
+                             "msg": f"{o['requests']} requests written for one call; {ctx}"})
+            if o["errors"] or o["leftover"]:
+                viol.append({"sig": {"class": "loop-error", **sig}, "msg": f"errors={o['errors'][:2]} leftover={o['leftover']}; {ctx}"})
+    return {"outcome": "boolseq:" + "+".join(sorted(outs)), "violations": viol[:12], "counters": counters, "helper": sname}
+
+
 def _run_part(ctl: explorer.Ctl, cfg: Dict[str, Any]) -> Dict[str, Any]:
     part = cfg["part"]
+    if part == "boolseq":
+        return _run_boolseq(cfg)
     if part == "pair":
         return _run_pair(cfg)
     if part == "order":
@@ -806,6 +877,14 @@ def run(tier: str, only=None) -> core.Result:
     out = explorer.explore(RUN, cfgs)
     sched.absorb(res, "iii-helpers-error-answer", RUN, out, cfgs)
     sched.debug_pass(res, "iii-helpers-error-answer", RUN, cfgs, every=(29 if tier == "quick" else 211))
+    # boolean helpers: the peer's answers differ per request
+    bcodes = sorted(set(PERMANENT) | set(RETRYABLE) | {0, -1, 1, -32099, 2 ** 63})
+    bcfgs = [{"part": "boolseq", "helper": h["name"], "codes": block, "with_result_first": i == 0}
+             for h in req_helpers if hd.short(h["name"]) in BOOL_HELPERS for i, block in enumerate(_chunks(bcodes, 4))]
+    out_b = explorer.explore(RUN, bcfgs)
+    sched.absorb(res, "iii-boolean-helpers-answers-differ-per-request", RUN, out_b, bcfgs)
+    samples += _pick("iii-boolean-helpers-answers-differ-per-request", bcfgs)
+    sched.debug_pass(res, "iii-boolean-helpers-answers-differ-per-request", RUN, bcfgs, every=2)
     # initialize helpers: texts that mention the protocol version, every code of the grid
     init_helpers = [h for h in req_helpers if "initialize" in hd.short(h["name"])]
     if init_helpers:
@@ -831,7 +910,7 @@ def run(tier: str, only=None) -> core.Result:
     cov["errors_module_api"] = api
     cov["call_order_pairs"] = cnt.get("order_pairs", 0)
     cov["two_call_scenarios"] = cnt.get("pair_scenarios", 0)
-    calls = cnt.get("pair_calls", 0) + cnt.get("order_sm_calls", 0) + cnt.get("sm_calls", 0) + cnt.get("helper_calls", 0) + cnt.get("baseline_calls", 0) + cnt.get("initpv_calls", 0)
+    calls = cnt.get("boolseq_calls", 0) + cnt.get("pair_calls", 0) + cnt.get("order_sm_calls", 0) + cnt.get("sm_calls", 0) + cnt.get("helper_calls", 0) + cnt.get("baseline_calls", 0) + cnt.get("initpv_calls", 0)
     cov["evaluations"] = cnt.get("fn_evaluations", 0) + calls
     cov["driven_calls"] = calls
     cov["function_evaluations"] = cnt.get("fn_evaluations", 0)
@@ -848,7 +927,8 @@ def run(tier: str, only=None) -> core.Result:
     cov["rule"] = (
         "codes = every integer in -33100..-31900 and -200..200 plus +-2^31, +-2^63 (each -1/0/+1) and 2^64-1; "
         "shapes = message {absent, empty, text with U+00E9/U+2028} x data {absent, null, string, object with null, list}, plus 13 messages "
-        "with percent signs (%s, %d, %(x)s, %%, 100% ..., %20), braces ({}, {0}, {code}, unbalanced), backslashes and $-templates (data absent; "
+        "with percent signs (%s, %d, %(x)s, %%, 100% ..., %20), braces ({}, {0}, {code}, unbalanced), backslashes, $-templates, unpaired surrogates (high, low, reversed), NUL / U+FFFF / U+FFFE / U+10FFFF (data absent), and data holding "
+        "unpaired surrogates or NUL/noncharacters; (these special shapes "
         "through the constructor route and with optional-argument profiles only for the boundary codes / plain messages); "
         "(i) is_retryable_error on every code; every public function / exception class of the errors module (introspection) called with 7 probe codes "
         "in every ordered pair (f, g) - after each call the module's tables must still equal the documented sets, is_retryable_error must agree on the "
@@ -859,7 +939,8 @@ def run(tier: str, only=None) -> core.Result:
         "return its own result; (iii) every discovered request helper x argument profiles "
         "{required only, all optionals, second Union arm} x "
         + ("boundary codes (named codes +-1, range edges, 0, +-1, +-200, 64-bit extremes)" if tier == "quick" else "every code of the grid")
-        + " x shape; ping / resources_subscribe / resources_unsubscribe x every code of the grid in both tiers (quick: 2 shapes per code)"
+        + " x shape; ping / resources_subscribe / resources_unsubscribe x every code of the grid in both tiers (quick: 2 shapes per code), and against a peer whose answers differ per request (first answer error over 19 codes or result; a "
+        "second request, if the helper writes one, would get result / error -32601 / error -32603 / silence): the helper must report the FIRST answer and write exactly one request"
         + "; the initialize helpers additionally x every code x 4 messages mentioning 'protocol version' (different casings) and a message-less "
         "error through the constructor route (judged for every code but -32602)"
         + ".  str(e) may not name a code other than the one sent.  distinct_nontrivial = distinct observation digests of the blocks (a block = one code, or one helper x profile x <=8 codes); "
